@@ -84,7 +84,8 @@ func vhOriginal(ran bool) *workflow.Plan {
 				x.Timeout = api.NondetDuration(name("timeout"))
 				api.Assume(x.Timeout == 0 || x.Timeout >= 5*time.Second) // valid at submission
 				x.Retries = api.NondetInt(name("retries"))
-				x.Req = kit.Req{N: api.NondetInt(name("req"))}
+				inner := api.NondetInt(name("reqptr"))
+				x.Req = kit.Req{N: api.NondetInt(name("req")), Items: []int{api.NondetInt(name("reqitem")), 2}, Ptr: &inner}
 				api.Assume(x.Req.(kit.Req).N >= 0)
 				st(x.State)
 			} else {
@@ -102,7 +103,7 @@ func vhOriginal(ran bool) *workflow.Plan {
 						at := &workflow.Attempt{Start: api.NondetTime(name("astart")), End: api.NondetTime(name("aend"))}
 						switch api.Choose(name("aout"), 3) {
 						case 0:
-							at.Resp = kit.Resp{N: api.NondetInt(name("resp"))}
+							at.Resp = kit.Resp{N: api.NondetInt(name("resp")), Items: []int{api.NondetInt(name("respitem"))}}
 						case 1:
 							at.Err = &plugins.Error{Code: plugins.ErrCode(api.NondetUint8(name("code"))), Message: "e", Permanent: api.NondetBool(name("perm"))}
 						case 2:
@@ -156,7 +157,10 @@ func vhSameAction(a, b *workflow.Action, keep bool) {
 	api.Assert(api.IteBool(a.Timeout == b.Timeout, a.Retries == b.Retries, false), "C18: action timeout and retries preserved")
 	ra, oka := a.Req.(kit.Req)
 	rb, okb := b.Req.(kit.Req)
-	api.Assert(oka && okb && ra.N == rb.N, "C18: action request preserved")
+	api.Assert(oka && okb && ra.N == rb.N && len(ra.Items) == len(rb.Items) && (ra.Ptr == nil) == (rb.Ptr == nil), "C18: action request preserved")
+	if oka && okb && len(ra.Items) == len(rb.Items) && len(ra.Items) > 0 {
+		api.Assert(ra.Items[0] == rb.Items[0] && (ra.Ptr == nil || rb.Ptr == nil || *ra.Ptr == *rb.Ptr), "C18: nested request data preserved")
+	}
 	vhSameState(a.State, b.State, keep, "action")
 	if keep {
 		api.Assert(a.ID == b.ID, "C18: keep-state clone preserves ids (action)")
